@@ -1,7 +1,9 @@
 package evsim
 
 import (
+	"encoding/hex"
 	"fmt"
+	"github.com/ethereum/go-ethereum/common"
 	"math/rand/v2"
 
 	ethcrypto "github.com/ethereum/go-ethereum/crypto"
@@ -143,6 +145,20 @@ func genC15(rng *rand.Rand, seed uint64, tier string) *Script {
 	wc := wallClocks(ends)
 	s.WallOffsetS = wc[rng.IntN(len(wc))]
 	s.Ops = genProtectedOps(rng, &s.Gen, 3+rng.IntN(7))
+	// call trees in which frames self-destruct, revert and touch each other (revert-heavy generated programs): a
+	// contract whose SELFDESTRUCT was reverted must survive, whatever else touched it
+	var eoas []common.Address
+	for i := 0; i < s.Gen.Wallets; i++ {
+		eoas = append(eoas, NewWallet("w", i).Addr)
+	}
+	for i := 0; i < nRand; i++ {
+		s.Gen.Contracts = append(s.Gen.Contracts, GenContract{Addr: RandAddr(i).Hex(), Code: hex.EncodeToString(genProgramStyled(rng, i, eoas, nil, 1)), Balance: pick(rng, "", "1000000", "5")})
+	}
+	for i, n := 0, 2+rng.IntN(8); i < n; i++ {
+		op := Op{K: "eth", W: rng.IntN(s.Gen.Wallets), To: RandAddr(rng.IntN(nRand)).Hex(), Typ: pick(rng, 0, 2), Price: "b+1", Tip: "1", Gas: pick(rng, "i+400000", "i+2000000"), Val: pick(rng, "0", "0", "1"), Data: hexWord(rng.IntN(2))}
+		at := 1 + rng.IntN(len(s.Ops)-1)
+		s.Ops = append(s.Ops[:at], append([]Op{op}, s.Ops[at:]...)...)
+	}
 	return s
 }
 
